@@ -348,8 +348,9 @@ type hookBudgetExceeded struct{}
 
 func exerciseNode(c *mon.Case, st *store.Store, how string, n ipld.Node, keys []string, paths, links int, payload int64) {
 	blocks := st.Len()
-	hookBudget := int64(64*blocks + 256)
-	exponential := paths > 200000 // stacked DAGs: iteration and reads are legitimately proportional to the number of paths
+	hookBudgetBlocks := int64(64*blocks + 256)
+	hookBudgetPaths := int64(64*(blocks+paths) + 256)
+	exponential := paths > 20000 // stacked DAGs: iteration and reads are legitimately proportional to the number of paths
 	if exponential {
 		paths, links = blocks, blocks*1024
 	}
@@ -363,6 +364,10 @@ func exerciseNode(c *mon.Case, st *store.Store, how string, n ipld.Node, keys []
 		// few times per block of the DAG; exceeding the budget aborts the call from inside the hook
 		var events int64
 		exceeded := false
+		hookBudget := hookBudgetBlocks
+		if strings.HasPrefix(name, "reader.") || name == "AsBytes" || strings.HasSuffix(name, "Iterator") {
+			hookBudget = hookBudgetPaths // reading / iterating visits every path
+		}
 		hook := func(string) {
 			if atomic.AddInt64(&events, 1) > hookBudget {
 				panic(hookBudgetExceeded{})
@@ -386,7 +391,7 @@ func exerciseNode(c *mon.Case, st *store.Store, how string, n ipld.Node, keys []
 		file.SetVerifHook(nil)
 		c.Max("max_hook_events_per_op", atomic.LoadInt64(&events))
 		if exceeded {
-			c.Violation("C13|unbounded-work|"+name, "%s.%s passed the memoisation sites more than %d times for a DAG of %d blocks: work is not proportional to the data", how, name, hookBudget, blocks)
+			c.Violation("C13|unbounded-work|"+name, "%s.%s passed the memoisation sites more than %d times for a DAG of %d blocks and %d paths: work is not proportional to the data", how, name, hookBudget, blocks, paths)
 		}
 		if st.BudgetExceeded {
 			c.Violation("C13|unbounded-loads|"+name, "%s.%s requested more than %d blocks from storage for a DAG with %d paths and %d links", how, name, loadBudget, paths, links)
@@ -474,12 +479,14 @@ func exerciseNode(c *mon.Case, st *store.Store, how string, n ipld.Node, keys []
 			}
 		}
 	})
-	op("AsBytes", func() {
-		b, err := n.AsBytes()
-		if err == nil && int64(len(b)) > payload+64 {
-			c.Violation("C13|oversized-bytes", "%s.AsBytes returned %d bytes from a DAG holding %d payload bytes over all paths", how, len(b), payload)
-		}
-	})
+	if !exponential {
+		op("AsBytes", func() {
+			b, err := n.AsBytes()
+			if err == nil && int64(len(b)) > payload+64 {
+				c.Violation("C13|oversized-bytes", "%s.AsBytes returned %d bytes from a DAG holding %d payload bytes over all paths", how, len(b), payload)
+			}
+		})
+	}
 	op("AsOther", func() { n.AsBool(); n.AsInt(); n.AsFloat(); n.AsString(); n.AsLink() })
 	op("Representation", func() {
 		if tn, ok := n.(interface{ Representation() ipld.Node }); ok {
@@ -494,7 +501,8 @@ func exerciseNode(c *mon.Case, st *store.Store, how string, n ipld.Node, keys []
 			}
 		}
 	})
-	if lb, ok := n.(largeBytes); ok {
+	// (reading a DAG whose sharing makes the path count astronomical is legitimately that expensive)
+	if lb, ok := n.(largeBytes); ok && !exponential {
 		steps := []struct {
 			name string
 			f    func(rs io.ReadSeeker)
@@ -597,8 +605,33 @@ func exerciseDAG(c *mon.Case, st *store.Store, root cid.Cid, class string) {
 		{"unixfs-preload", func() (ipld.Node, error) {
 			return ls.KnownReifiers["unixfs-preload"](ipld.LinkContext{Ctx: bg}, raw, ls)
 		}},
+		// the exported constructors called directly, on whatever the block decodes to
+		{"file.NewUnixFSFile", func() (ipld.Node, error) {
+			n, err := file.NewUnixFSFile(bg, raw, ls)
+			if n == nil {
+				return nil, err
+			}
+			return n, err
+		}},
+		{"file.NewUnixFSFileWithPreload", func() (ipld.Node, error) {
+			n, err := file.NewUnixFSFileWithPreload(bg, raw, ls)
+			if n == nil {
+				return nil, err
+			}
+			return n, err
+		}},
+		{"hamt.AttemptHAMTShardFromNode", func() (ipld.Node, error) {
+			n, err := hamt.AttemptHAMTShardFromNode(bg, raw, ls)
+			if n == nil {
+				return nil, err
+			}
+			return n, err
+		}},
 	}
 	for _, rf := range reifiers {
+		if paths > 20000 && strings.HasPrefix(rf.name, "file.") {
+			continue // reading such a DAG as a file is legitimately as expensive as its path count
+		}
 		var n ipld.Node
 		var rerr error
 		st.ResetLog()
@@ -606,7 +639,7 @@ func exerciseDAG(c *mon.Case, st *store.Store, root cid.Cid, class string) {
 		c.Count("operations", 1)
 		var events int64
 		exceeded := false
-		hookBudget := int64(64*st.Len() + 256)
+		hookBudget := int64(64*(st.Len()+min(paths, 20000)) + 256)
 		hook := func(string) {
 			if atomic.AddInt64(&events, 1) > hookBudget {
 				panic(hookBudgetExceeded{})
@@ -648,6 +681,9 @@ func exerciseDAG(c *mon.Case, st *store.Store, root cid.Cid, class string) {
 		} else if n == nil {
 			c.Violation("C13|nil-value|reify", "%s returned (nil, nil)", rf.name)
 			continue
+		}
+		if strings.Contains(rf.name, ".") && rerr != nil {
+			continue // a constructor that reports an error owes nothing about the value it returns with it
 		}
 		if n == raw {
 			// not dag-pb: reification hands the node back untouched; its
